@@ -121,6 +121,8 @@ static int depack_fuchs(HIO_HANDLE *in, FILE *out)
 
 	/* read pattern data */
 	tmp = (uint8 *)malloc(pat_size);
+	if (tmp == NULL)
+		return -1;
 	if (hio_read(tmp, 1, pat_size, in) != pat_size) {
 		free(tmp);
 		return -1;
